@@ -45,7 +45,7 @@ def _events(args):
                 return l
             return l.lift_over_to_first_ancestor_of_type(SequenceType.CHROMOSOME)
 
-        row += [B.to_dict() == A.to_dict(), B.guid == A.guid and (not cds or B.cds.guid == A.cds.guid),
+        row += [B.to_dict() == A.to_dict(), B.guid == A.guid and (not cds or (B.cds is not None and B.cds.guid == A.cds.guid)),
                 E.outcome(lambda: E.loc(B.chromosome_location)),
                 E.outcome(lambda: E.loc(back(B.chunk_relative_location))),
                 E.outcome(lambda: list(str(B.get_spliced_sequence())))]
